@@ -101,12 +101,16 @@ mod v_socket_dhcpv4 {
 
     /// arbitrary client state (INV_dhcp), arbitrary user settings; `max_retries` bounds `request_retries`
     fn any_state(s: &mut Socket, max_retries: u16) {
+        let k: u8 = kani::any();
+        any_state_in(s, max_retries, if k > 2 { REN } else { k });
+    }
+    /// the same with the phase fixed (per-phase harnesses)
+    fn any_state_in(s: &mut Socket, max_retries: u16, k: u8) {
         s.transaction_id = kani::any();
         s.config_changed = kani::any();
         s.ignore_naks = kani::any();
         s.max_lease_duration = if kani::any() { Some(Duration::from_micros(kani::any())) } else { None };
         s.retry_config = any_retry_config(max_retries);
-        let k: u8 = kani::any();
         s.state = match k {
             0 => ClientState::Discovering(DiscoverState { retry_at: any_instant() }),
             1 => ClientState::Requesting(RequestState {
@@ -230,13 +234,13 @@ mod v_socket_dhcpv4 {
         ($dev:ident, $iface:ident, $cx:ident, $now:ident, $mac:ident, $mtu:expr) => {
             let mut $dev = NullDev { medium: Medium::Ethernet, mtu: $mtu, checksum: ChecksumCapabilities::ignored() };
             let $now: i64 = kani::any();
-            kani::assume($now >= 0 && $now < (1i64 << 40));
+            kani::assume($now >= 0 && $now < (1i64 << 50));
             let macb: [u8; 6] = kani::any();
             kani::assume(macb[0] & 1 == 0);
             let $mac = EthernetAddress(macb);
             let mut ifcfg = IfaceConfig::new(HardwareAddress::Ethernet($mac));
             ifcfg.random_seed = kani::any();
-            let mut $iface = Interface::new(ifcfg, &mut $dev, Instant::from_millis($now));
+            let mut $iface = Interface::new(ifcfg, &mut $dev, Instant::from_micros($now));
             let $cx = $iface.context();
         };
     }
@@ -551,7 +555,7 @@ mod v_socket_dhcpv4 {
     /// client in Requesting only after a REQUEST was handed to the device (`retry > 0`); see `finding_dhcp_ack_before_request`.
     fn process_step(layout: u8, assert_sent: bool) -> Outcome {
         dhcp_env!(dev, iface, cx, now, mac, 1514);
-        let nowi = Instant::from_millis(now);
+        let nowi = Instant::from_micros(now);
         let mut s = Socket::new();
         any_state(&mut s, u16::MAX);
         let pre = snap(&s);
@@ -563,7 +567,7 @@ mod v_socket_dhcpv4 {
         let src = any_ip();
         let ip_repr = Ipv4Repr { src_addr: src, dst_addr: any_ip(), next_header: IpProtocol::Udp, payload_len: UDP_HEADER_LEN + n, hop_limit: 64 };
         let udp_repr = UdpRepr { src_port: DHCP_SERVER_PORT, dst_port: DHCP_CLIENT_PORT };
-        crate::vdump!("PRE now_ms={} mac={} xid={:#x} max_lease={:?} ignore_naks={} changed={} {:?}", now, mac, pre.tid, maxl, ignore_naks, pre.config_changed, s.state);
+        crate::vdump!("PRE now_us={} mac={} xid={:#x} max_lease={:?} ignore_naks={} changed={} {:?}", now, mac, pre.tid, maxl, ignore_naks, pre.config_changed, s.state);
         crate::vdump!("MSG layout={} op={} htype={} hlen={} xid={:?} yiaddr={:?} chaddr={:?} type={} sid={:?} lease={} lease2={} mask={:?} router={:?} t1={} t2={} dns={:?},{:?} src={}",
             layout, f.op, f.htype, f.hlen, f.xid, f.yi, f.ch, f.mt, f.sid, f.lease, f.lease2, f.mask, f.router, f.t1, f.t2, f.dns0, f.dns1, src);
         crate::vdump!("BYTES {:?}", &b[..n]);
@@ -913,18 +917,24 @@ mod v_socket_dhcpv4 {
         assert_inv(post);
     }
 
-    // @harness props=C18 cfg=KD tier=q to=900 mem=6 unwind=12 opts=nomem covers=6 funcs=dhcpv4::Socket::dispatch;dhcpv4::Socket::reset;dhcpv4::Socket::poll bounds=any_client_state_with_INV_dhcp;_any_now;_emit_Ok_or_Err;_timeouts<=2^32_s_(max_renew_timeout_also_Duration::MAX);_request_retries<=16;_any_MAC,_MTU_82..1514,_any_random_seed
-    #[kani::proof]
-    pub(crate) fn dhcp_dispatch_step() {
+    struct DispatchOutcome {
+        pre: Snap,
+        post: Snap,
+        e: Emitted,
+        emit_ok: bool,
+        expired: bool,
+    }
+
+    fn dispatch_step(phase: u8) -> DispatchOutcome {
         let mtu = any_le(1514);
         kani::assume(mtu >= 82);
         dhcp_env!(dev, iface, cx, now, mac, mtu);
-        let nowi = Instant::from_millis(now);
+        let nowi = Instant::from_micros(now);
         let mut s = Socket::new();
-        any_state(&mut s, 16);
+        any_state_in(&mut s, 16, phase);
         let rc = s.retry_config;
         let pre = snap(&s);
-        crate::vdump!("PRE now_ms={} mac={} xid={:#x} changed={} {:?} {:?}", now, mac, pre.tid, pre.config_changed, rc, s.state);
+        crate::vdump!("PRE now_us={} mac={} xid={:#x} changed={} {:?} {:?}", now, mac, pre.tid, pre.config_changed, rc, s.state);
         let mut e = no_emission();
         let emit_ok: bool = kani::any();
         let res = s.dispatch(cx, |_cx, (ip, udp, d)| {
@@ -936,16 +946,41 @@ mod v_socket_dhcpv4 {
         crate::vdump!("POST xid={:#x} changed={} {:?}", post.tid, post.config_changed, s.state);
         check_dispatch(&pre, &post, &e, emit_ok, res.is_ok(), nowi, mac, &rc);
         // the first poll() at or after expiry reports the loss
-        if pre.phase == REN && nowi >= pre.expires_at {
+        let expired = pre.phase == REN && nowi >= pre.expires_at;
+        if expired {
             let ev = s.poll();
             assert!(ev == Some(Event::Deconfigured), "prop:c18_deconfigured_at_expiry");
         }
-        kani::cover!(pre.phase == REN && nowi >= pre.expires_at, "lease expired");
-        kani::cover!(pre.phase == REN && e.seen && emit_ok && e.dst != Ipv4Address::BROADCAST, "renewal unicast to the server");
-        kani::cover!(pre.phase == REN && e.seen && emit_ok && !pre.rebinding && post.rebinding, "rebinding entered");
-        kani::cover!(pre.phase == REQ && e.seen && emit_ok && pre.retry == 15, "REQUEST retransmitted with backoff");
-        kani::cover!(pre.phase == REQ && post.phase == DISC, "request retries exhausted");
-        kani::cover!(pre.phase == DISC && e.seen && !emit_ok, "DISCOVER refused by the device");
+        DispatchOutcome { pre, post, e, emit_ok, expired }
+    }
+
+    // @harness props=C18 cfg=KD tier=q to=900 mem=6 unwind=12 opts=nomem covers=3 funcs=dhcpv4::Socket::dispatch bounds=any_Discovering_state;_any_now;_emit_Ok_or_Err;_timeouts<=2^32_s;_any_MAC,_MTU_82..1514,_any_random_seed
+    #[kani::proof]
+    pub(crate) fn dhcp_dispatch_discovering() {
+        let o = dispatch_step(DISC);
+        kani::cover!(o.e.seen && o.emit_ok, "DISCOVER sent");
+        kani::cover!(o.e.seen && !o.emit_ok, "DISCOVER refused by the device");
+        kani::cover!(!o.e.seen, "DISCOVER not due yet");
+    }
+
+    // @harness props=C18 cfg=KD tier=q to=900 mem=6 unwind=12 opts=nomem covers=3 funcs=dhcpv4::Socket::dispatch;dhcpv4::Socket::reset bounds=any_Requesting_state_(retry_any_u16);_any_now;_emit_Ok_or_Err;_timeouts<=2^32_s;_request_retries<=16;_any_MAC,_MTU_82..1514
+    #[kani::proof]
+    pub(crate) fn dhcp_dispatch_requesting() {
+        let o = dispatch_step(REQ);
+        kani::cover!(o.e.seen && o.emit_ok && o.pre.retry == 0, "first REQUEST sent");
+        kani::cover!(o.e.seen && o.emit_ok && o.pre.retry == 15, "REQUEST retransmitted with backoff");
+        kani::cover!(o.post.phase == DISC, "request retries exhausted");
+    }
+
+    // @harness props=C18 cfg=KD tier=q to=900 mem=6 unwind=12 opts=nomem covers=5 funcs=dhcpv4::Socket::dispatch;dhcpv4::Socket::reset;dhcpv4::Socket::poll bounds=any_Renewing_state_with_INV_dhcp;_any_now;_emit_Ok_or_Err;_timeouts<=2^32_s_(max_renew_timeout_also_Duration::MAX);_<=3_DNS_servers;_any_MAC,_MTU_82..1514,_any_random_seed
+    #[kani::proof]
+    pub(crate) fn dhcp_dispatch_renewing() {
+        let o = dispatch_step(REN);
+        kani::cover!(o.expired, "lease expired");
+        kani::cover!(o.e.seen && o.emit_ok && o.e.dst != Ipv4Address::BROADCAST, "renewal unicast to the server");
+        kani::cover!(o.e.seen && o.emit_ok && !o.pre.rebinding && o.post.rebinding, "rebinding entered");
+        kani::cover!(o.e.seen && o.emit_ok && o.pre.rebinding && o.post.rebind_at > o.post.expires_at, "rebind retry scheduled beyond expiry (clamped by poll_at)");
+        kani::cover!(o.e.seen && !o.emit_ok, "renewal refused by the device");
     }
 
     // `initial_request_timeout << (retry / 2)` (Duration::shl = u64 <<): a legal RetryConfig with request_retries > 128
@@ -954,13 +989,12 @@ mod v_socket_dhcpv4 {
     #[kani::proof]
     pub(crate) fn finding_dhcp_request_backoff_shift() {
         dhcp_env!(dev, iface, cx, now, mac, 1514);
-        let nowi = Instant::from_millis(now);
+        let nowi = Instant::from_micros(now);
         let mut s = Socket::new();
-        any_state(&mut s, u16::MAX);
-        kani::assume(matches!(s.state, ClientState::Requesting(_)));
+        any_state_in(&mut s, u16::MAX, REQ);
         let rc = s.retry_config;
         let pre = snap(&s);
-        crate::vdump!("PRE now_ms={} {:?} {:?}", now, rc, s.state);
+        crate::vdump!("PRE now_us={} {:?} {:?}", now, rc, s.state);
         let mut seen = false;
         let res = s.dispatch(cx, |_cx, (_ip, _udp, _d)| -> Result<(), ()> {
             seen = true;
@@ -975,13 +1009,18 @@ mod v_socket_dhcpv4 {
     }
 
     // ------------------------------------------------------------------ 4. poll_at contract
-    // @harness props=C18,C13 cfg=KD tier=q to=900 mem=6 unwind=12 opts=nomem covers=4 funcs=dhcpv4::Socket::poll_at;dhcpv4::Socket::dispatch bounds=any_client_state_with_INV_dhcp;_any_now;_emit_Ok_or_Err;_timeouts<=2^32_s;_request_retries<=16
-    #[kani::proof]
-    pub(crate) fn dhcp_poll_at_step() {
+    struct PollAtOutcome {
+        pre: Snap,
+        d: Instant,
+        early: bool,
+        seen: bool,
+    }
+
+    fn poll_at_step(phase: u8) -> PollAtOutcome {
         dhcp_env!(dev, iface, cx, now, mac, 1514);
-        let nowi = Instant::from_millis(now);
+        let nowi = Instant::from_micros(now);
         let mut s = Socket::new();
-        any_state(&mut s, 16);
+        any_state_in(&mut s, 16, phase);
         let pre = snap(&s);
         let d = match s.poll_at(cx) {
             PollAt::Time(t) => t,
@@ -999,7 +1038,7 @@ mod v_socket_dhcpv4 {
             assert!(d == pre.retry_at, "prop:c18_poll_at_is_next_solicitation");
         }
         let early = nowi < d;
-        crate::vdump!("PRE now_ms={} poll_at={} {:?}", now, d, s.state);
+        crate::vdump!("PRE now_us={} poll_at={} {:?}", now, d, s.state);
         let mut seen = false;
         let emit_ok: bool = kani::any();
         let _ = s.dispatch(cx, |_cx, (_ip, _udp, _d)| {
@@ -1028,10 +1067,26 @@ mod v_socket_dhcpv4 {
                 _ => assert!(false, "prop:c18_dhcp_client_always_has_a_deadline"),
             }
         }
-        kani::cover!(early && pre.phase == REN && d == pre.expires_at && d < pre.rebind_at, "deadline is the expiry while rebinding");
-        kani::cover!(early && pre.phase == REQ, "polled before the REQUEST retry is due");
-        kani::cover!(!early && seen && pre.phase == REN, "renewal deadline reached");
-        kani::cover!(!early && !seen && pre.phase == REN, "expiry deadline reached");
+        PollAtOutcome { pre, d, early, seen }
+    }
+
+    // @harness props=C18,C13 cfg=KD tier=q to=900 mem=6 unwind=12 opts=nomem covers=3 funcs=dhcpv4::Socket::poll_at;dhcpv4::Socket::dispatch bounds=any_Discovering_or_Requesting_state;_any_now;_emit_Ok_or_Err;_timeouts<=2^32_s;_request_retries<=16
+    #[kani::proof]
+    pub(crate) fn dhcp_poll_at_soliciting() {
+        let o = poll_at_step(if kani::any() { DISC } else { REQ });
+        kani::cover!(o.early && o.pre.phase == REQ, "polled before the REQUEST retry is due");
+        kani::cover!(o.early && o.pre.phase == DISC, "polled before the DISCOVER retry is due");
+        kani::cover!(!o.early && o.seen, "deadline reached: message sent");
+    }
+
+    // @harness props=C18,C13 cfg=KD tier=q to=900 mem=6 unwind=12 opts=nomem covers=4 funcs=dhcpv4::Socket::poll_at;dhcpv4::Socket::dispatch bounds=any_Renewing_state_with_INV_dhcp;_any_now;_emit_Ok_or_Err;_timeouts<=2^32_s_(max_renew_timeout_also_Duration::MAX)
+    #[kani::proof]
+    pub(crate) fn dhcp_poll_at_renewing() {
+        let o = poll_at_step(REN);
+        kani::cover!(o.early && o.d == o.pre.expires_at && o.d < o.pre.rebind_at, "deadline is the expiry while rebinding");
+        kani::cover!(o.early && o.d < o.pre.expires_at, "polled before the renewal is due");
+        kani::cover!(!o.early && o.seen, "renewal deadline reached");
+        kani::cover!(!o.early && !o.seen, "expiry deadline reached");
     }
 
     // ------------------------------------------------------------------ 5. poll(): events
@@ -1209,6 +1264,36 @@ mod v_socket_dhcpv4 {
     pub(crate) fn finding_dhcp_history_ack_without_request() {
         let (configured, _expired, _rebinding) = history(false);
         kani::cover!(configured, "configured without a REQUEST");
+    }
+
+    // @harness props=C18 cfg=KD tier=q to=300 mem=4 unwind=12 opts=nomem covers=1
+    #[kani::proof]
+    pub(crate) fn x_vec_a() {
+        let mut v: Vec<Ipv4Address, 3> = Vec::new();
+        let n: u8 = kani::any();
+        if n >= 1 { v.push(any_ip()).ok(); }
+        if n >= 2 { v.push(any_ip()).ok(); }
+        if n >= 3 { v.push(any_ip()).ok(); }
+        let w = v.clone();
+        let k = any_lt(3);
+        if k < v.len() {
+            assert!(w[k] == v[k], "prop:x_clone_same");
+        }
+        kani::cover!(v.len() == 3);
+    }
+    // @harness props=C18 cfg=KD tier=q to=300 mem=4 unwind=12 opts=nomem covers=1
+    #[kani::proof]
+    pub(crate) fn x_vec_b() {
+        let mut s = Socket::new();
+        any_state_in(&mut s, 16, REN);
+        let pre = snap(&s);
+        let k = any_lt(3);
+        if let ClientState::Renewing(r) = &s.state {
+            if k < pre.dns_n {
+                assert!(r.config.dns_servers[k] == pre.dns[k], "prop:x_snap_same");
+            }
+        }
+        kani::cover!(pre.dns_n == 3);
     }
 
     // ------------------------------------------------------------------ must-fail twin
